@@ -5,6 +5,7 @@ pub mod mq_mpsc;
 pub mod mq_spsc;
 pub mod ch_util;
 pub mod ch_mpsc;
+pub mod mq_spmc;
 pub mod mutex;
 pub mod sem;
 pub mod syncflag;
@@ -31,12 +32,13 @@ pub fn build_det(family: &str, rng: &mut Rng, tier: u32) -> Option<Built> {
         "syncflag" => Some(syncflag::build(rng, tier)),
         "mq_mpsc" => Some(mq_mpsc::build(rng, tier)),
         "mq_spsc" => Some(mq_spsc::build(rng, tier)),
+        "mq_spmc" => Some(mq_spmc::build(rng, tier)),
         _ => None,
     }
 }
 
 pub fn det_families() -> Vec<&'static str> {
-    vec!["ch_mpsc", "mutex", "sem", "syncflag", "mq_mpsc", "mq_spsc"]
+    vec!["ch_mpsc", "mutex", "sem", "syncflag", "mq_mpsc", "mq_spsc", "mq_spmc"]
 }
 
 pub mod live_park;
